@@ -111,7 +111,7 @@ CHECKS = {
     ),
     "C14": dict(
         level="model_checking", design="§4 C14",
-        technique="exhaustive interleaving exploration of three client connections (real Server.handle_connection coroutines on the virtual loop) over a 29-action misbehaviour alphabet",
+        technique="exhaustive interleaving exploration of three client connections (real Server.handle_connection coroutines on the virtual loop) over a 30-action misbehaviour alphabet",
         text="Healthy synchronous client H [enqueue a; enqueue b(dep a); states], late healthy client N [enqueue c; states], misbehaving client M performing every sequence of <=1 action (deviation bound 1) and selected sequences of 2 (bound 0) [thorough: all pairs, bounds 2/1] from: garbage, empty line, {}, list, string, unknown kind, enqueue missing/extra field, deps unknown id / wrong type / int, state/cancel of unknown id, cancel of a string id, cancel of H's task, invalid UTF-8, half line + EOF, EOF, reset, failing drain, well-formed enqueue. "
         "Checked: ids distinct and answered with the task's own id; every task_states answer equals the true table when written; H and N got every owed answer; every accepted task final and admissible. Real-socket tier: a real worker pool (start_cluster in its own process, TCP) receives every misbehaviour sequence of length <=1 (thorough 2) from an 18-entry byte-level alphabet (incl. a 70 kB line, invalid UTF-8, half line) x {close, reset, abandon} while gwf's real Client submits and polls before and after.",
         note="Connections are StreamReaders fed by the explorer; real sockets only in the real-socket tier.",
@@ -172,7 +172,7 @@ ADDED = {
     "C11": "A dependent that starts after its dependency was cancelled while unfinished, a task depending on an id the pool never issued (number / string form of a live id), log-write failure of a dependency with non-zero exit, negative exit codes.",
     "C12": "CLI-level family (four targets asking for more cores than the pool has, run through the real Client on the bridged pool, every exit order, three rounds, bound on processes alive at once). Capacity probe at every horizon (cores+1 fresh tasks: exactly `cores` run at once, all run), per-task log-write failures followed by more ready tasks than cores, SIGTERM-only processes count as live.",
     "C13": "Scheduler.shutdown() while tasks run / wait for a core / wait for a dependency; process creation failing with ValueError; process groups with a member that ignores SIGTERM (virtual and real tier), the pool's clock owned by the loop, background commands outliving the shell (real tier), output completeness (real tier).",
-    "C14": "29 actions (enqueue and state query in one write, float ids, an unstartable task, a client that never reads its answers), task_state answers validated, final-state oracle for every accepted task, capacity probe; socket tier: flooding client that never reads, cases carry the pool's history.",
+    "C14": "30 actions (enqueue and cancel of the id it will get in one write, enqueue and state query in one write, float ids, an unstartable task, a client that never reads its answers), task_state answers validated, final-state oracle for every accepted task, capacity probe; socket tier: flooding client that never reads, cases carry the pool's history.",
     "C15": "Commands started from a sub-directory / with -f (decoys of the same relative names), a declared output that is a directory with other files inside, a declared output that is a symlink to an unrelated file.",
     "C16": "Outputs in missing sub-directories, outputs that are symbolic links (to a stale / fresh / missing file), shortcut workflows; re-stamping only what the kernel really stamped and never times a program chose explicitly.",
     "C17": "One target selected twice (overlapping patterns, same name twice), any change to a non-selected non-downstream task is collateral (local), failing cancel with empty stderr, local backend incl. stale ids.",
